@@ -356,6 +356,28 @@ def r10(ctx):
     import c05
     c05.r6(ctx)
 
+def r11(ctx):
+    """A SELECT (or OPERATE) whose echo outgrows the response buffer is abandoned as a whole: in the per-object loops of
+    control::collection a failed echo write leaves the function through `?` (WriteError), so the caller never records a SELECT for a
+    request whose objects were only partly selected, and an OPERATE never actuates objects beyond the point where its echo stopped.
+    Swallowing the error in one of the two loops is harmless alone; in both it actuates objects that were never selected."""
+    prog = ctx.prog
+    n = 0
+    for bd in prog.bodies_matching(r"^dnp3::outstation::control::collection::"):
+        if "::test" in bd.path:
+            continue
+        sym = ctx.sym(bd)
+        for c in call_sites(bd, r"PrefixWriter<.*>::write$|PrefixWriter::write$"):
+            n += 1
+            d = c.term.d["d"]
+            # the Result goes straight into `?`
+            nxt = bd.blocks[c.term.d["t"]] if c.term.d.get("t") is not None else None
+            q = nxt is not None and nxt.term.kind == "call" and ((nxt.term.d.get("f") or "").endswith("Try::branch") or (nxt.term.d.get("r") or "").endswith("::Try>::branch")) and nxt.term.args and not nxt.term.args[0].is_const() and nxt.term.args[0].place.local == d.local
+            ctx.check(q, "echo-write-propagates@%s#%d" % (short(bd.path), n), "a failed echo write leaves %s through `?`" % short(bd.path), bd.where(c.idx), bad_detail="%s does not propagate a failed echo write (PrefixWriter::write): the loop goes on or ends quietly, so the request counts as processed although its echo (and, for SELECT, its selection) is incomplete" % short(bd.path))
+    if n < 3:
+        raise AnchorError("PrefixWriter::write sites in control::collection: %d" % n)
+
+
 RULES = [
     ("C04.R1", "T2", "every SelectState field is tested on the way to match_operate's Ok", r1),
     ("C04.R2", "T2", "actuation in handle_operate only under select is Some and match_operate is Ok", r2),
@@ -367,4 +389,5 @@ RULES = [
     ("C04.R8", "T8-namesake", "the outstation's configuration and session state are plumbed field-to-namesake (select_timeout, confirm_timeout, ...)", r_plumb),
     ("C04.R9", "T2", "per-session state is reset before a session's first await (a pre-empted session is dropped without clean-up)", r9),
     ("C04.R10", "T8/T3", "every executed request is recorded as the last valid request (shared with C05.R6): the frame-id refresh relies on it", r10),
+    ("C04.R11", "T3", "a failed control echo aborts the header through WriteError in every per-object loop", r11),
 ]
